@@ -117,15 +117,18 @@ def run (args : List Str) : String × String × String :=
     else bad
   | [c, kind, a, b] =>
     -- a response as the service publishes it (shapes of Model/Req): the client must classify it as that shape
-    if c = str "svc" then
+    if c = str "svc" || c = str "svcm" then
+      -- svcm: the same response with the meta member a service adds for an HTTP request whose
+      -- handler set a status or a header (request.go: `Meta *meta "json:meta,omitempty"`)
+      let tail : Str := if c = str "svcm" then b!",\"meta\":{\"status\":404,\"header\":{\"X-A\":[\"1\"]}}}" else [125]
       let text : Str :=
-        if kind = str "result" then b!"{\"result\":" ++ a ++ [125]
-        else if kind = str "resource" then b!"{\"resource\":{\"rid\":\"" ++ a ++ b!"\"}}"
-        else b!"{\"error\":{\"code\":\"" ++ a ++ b!"\",\"message\":\"" ++ b ++ b!"\"}}"
+        if kind = str "result" then b!"{\"result\":" ++ a ++ tail
+        else if kind = str "resource" then b!"{\"resource\":{\"rid\":\"" ++ a ++ b!"\"}" ++ tail
+        else b!"{\"error\":{\"code\":\"" ++ a ++ b!"\",\"message\":\"" ++ b ++ b!"\"}" ++ tail
       let r := parseResponse (parse text)
       let want := if kind = str "result" then Resp.result ((parse a).map render |>.getD a)
         else if kind = str "resource" then .resource a else .error a
-      (encResp r, encResp want, "svc-" ++ Str.show kind)
+      (encResp r, encResp want, Str.show c ++ "-" ++ Str.show kind)
     else bad
   | _ => bad
 
